@@ -407,8 +407,13 @@ class Frame:
     def __init__(s, fn, regs, block, prev, ip, ret_dst, allocas): s.fn, s.regs, s.block, s.prev, s.ip, s.ret_dst, s.allocas = fn, regs, block, prev, ip, ret_dst, allocas
 
 class Engine:
-    def __init__(s, module, check_ub=True, max_steps=200000):
-        s.m = module; s.solver = z3.Solver(); s.check_ub = check_ub; s.max_steps = max_steps
+    def __init__(s, module, check_ub=True, max_steps=200000, budget_s=None):
+        s.m = module; s.solver = z3.Solver(); s.max_steps = max_steps
+        s.solver.set("timeout", 30000)       # a feasibility check that does not answer in 30 s makes the run inconclusive
+        # check_ub: True = all obligations; "mem" = memory obligations only (for optimised IR, where speculated arithmetic would
+        # raise false shift/overflow alarms); False = none beyond hard errors
+        s.check_mem = bool(check_ub); s.check_ub = (check_ub is True)
+        s.deadline = (time.time() + budget_s) if budget_s else None
         s.stats = dict(paths=0, forks=0, solver_calls=0, solver_time=0.0, steps=0)
         s.fresh = 0
     # -- solver helpers
@@ -651,6 +656,8 @@ class Engine:
         work = [st]; results = []
         while work:
             st = work.pop()
+            if s.deadline is not None and time.time() > s.deadline:
+                raise Unsupported("time budget of this run exceeded (inconclusive, not a pass)")
             try:
                 r = s.run_path(st, work)
             except Violation as v:
@@ -816,13 +823,23 @@ class Engine:
                 if fr.ret_dst is not None: st.frames[-1].regs[fr.ret_dst] = rv
             elif op == "unreachable": raise Violation("unreachable-reached", fr.fn.name, list(st.pc))
             else: raise Unsupported(op)
+    def concretize(s, st, e):
+        """value of e if the path condition determines it uniquely; otherwise NeedConcrete (the caller forks on its feasible values)"""
+        e = simp(e)
+        if is_c(e): return e
+        s.stats["solver_calls"] += 1
+        s.solver.push(); s.solver.add(*st.pc); r = s.solver.check()
+        v = s.solver.model().eval(e, model_completion=True).as_long() if r == z3.sat else None
+        s.solver.pop()
+        if v is None: raise Unsupported("infeasible or unknown path while concretising")
+        if s.sat(st, e != v): raise NeedConcrete(e)
+        return v
     def intrinsic(s, st, name, argv, args):
         if name.startswith("llvm.lifetime") or name.startswith("llvm.dbg") or name.startswith("llvm.assume") or name.startswith("llvm.experimental.noalias"): return None
         if name in ("memcpy", "memmove"): name = "llvm." + name + ".ext"
         if name == "memset": name = "llvm.memset.ext"
         if name.startswith("llvm.memcpy") or name.startswith("llvm.memmove"):
-            dst, src, n = argv[0], argv[1], simp(argv[2])
-            if not is_c(n): raise NeedConcrete(argv[2])
+            dst, src, n = argv[0], argv[1], s.concretize(st, argv[2])
             if n == 0: return dst if name.endswith(".ext") else None
             bs = s.load_bytes(st, src, n, name)
             if name.startswith("llvm.memcpy") and dst.obj == src.obj and is_c(dst.off) and is_c(src.off) and abs(dst.off - src.off) < n and dst.off != src.off:
@@ -837,8 +854,7 @@ class Engine:
             else: s.store_bytes(st, dst, bs, name)
             return dst if name.endswith(".ext") else None
         if name.startswith("llvm.memset"):
-            dst, v, n = argv[0], argv[1], simp(argv[2])
-            if not is_c(n): raise NeedConcrete(argv[2])
+            dst, v, n = argv[0], argv[1], s.concretize(st, argv[2])
             if not is_c(v): v = simp(z3.Extract(7, 0, v)) if v.size() > 8 else v
             else: v &= 0xFF
             if n: s.store_bytes(st, dst, [v] * n, name)
@@ -854,8 +870,7 @@ class Engine:
             bits = int(name.rsplit("i", 1)[1]); x, y = bv(argv[0], bits), bv(argv[1], bits)
             return simp(z3.If(z3.ULT(x, y), x, y) if "umin" in name else z3.If(z3.UGT(x, y), x, y))
         if name == "_Znwm" or name == "malloc":
-            n = simp(argv[0])
-            if not is_c(n): raise NeedConcrete(argv[0])
+            n = s.concretize(st, argv[0])
             return st.new_obj(n, f"heap{st.next_obj}")
         if name == "_ZdlPv" or name == "free":
             p = argv[0]
